@@ -23,8 +23,32 @@ import (
 // session-less namespace (handle session "") stays one namespace, and it is nobody's session data.
 
 func c11PersistPass(b kvBackend, sessions []string, key string) (sig, msg string, steps int) {
+	for variant := 0; variant < 3; variant++ {
+		if sig, msg, n := c11PersistVariant(b, sessions, key, variant); sig != "" {
+			return sig, msg, steps + n
+		} else {
+			steps += n
+		}
+	}
+	return "", "", steps
+}
+
+// variant 0: a store handle and a persister per session, the session selected on the handle;
+// variant 1: ONE persister on one handle, re-pointed with WithSession (all saves first, then all loads);
+// variant 2: as 0, but the handle is shared with application code that selects USERDATA on it between the
+// persister's construction and its Save / Load.
+func c11PersistVariant(b kvBackend, sessions []string, key string, variant int) (sig, msg string, steps int) {
 	st := b.New()
 	defer st.cleanup()
+	var shared *persist.Persister
+	if variant == 1 {
+		h, err := st.open()
+		if err != nil {
+			return "", "", 0
+		}
+		shared = persist.NewPersister(h)
+	}
+	vname := []string{"a persister per session", "one persister re-pointed with WithSession", "store handle shared with code that selects USERDATA"}[variant]
 	mk := func(s string) (*state.State, *cache.Cache) {
 		x := state.NewState(2)
 		x.Down("root")
@@ -41,6 +65,12 @@ func c11PersistPass(b kvBackend, sessions []string, key string) (sig, msg string
 		}
 		h.SetSession(s)
 		pe := persist.NewPersister(h)
+		if variant == 1 {
+			pe = shared.WithSession(s)
+		}
+		if variant == 2 {
+			h.SetPrefix(db.DATATYPE_USERDATA)
+		}
 		x, c := mk(s)
 		pe = pe.WithContent(x, c)
 		steps++
@@ -54,14 +84,21 @@ func c11PersistPass(b kvBackend, sessions []string, key string) (sig, msg string
 			return "", "", steps
 		}
 		h.SetSession(s)
-		pe := persist.NewPersister(h).WithContent(state.NewState(2), cache.NewCache())
+		pe := persist.NewPersister(h)
+		if variant == 1 {
+			pe = shared.WithSession(s)
+		}
+		if variant == 2 {
+			h.SetPrefix(db.DATATYPE_USERDATA)
+		}
+		pe = pe.WithContent(state.NewState(2), cache.NewCache())
 		steps++
 		if err := pe.Load(key); err != nil {
-			return "persisted-session-lost@" + b.Name, fmt.Sprintf("sessions %q each saved under record key %q with the session selected on the store handle; session %q cannot load its record: %v", sessions, key, s, err), steps
+			return "persisted-session-lost@" + b.Name, fmt.Sprintf("sessions %q each saved under record key %q (%s); session %q cannot load its record: %v", sessions, key, vname, s, err), steps
 		}
 		got, _ := pe.Memory.Get("who")
 		if got != "value of "+s || len(pe.State.ExecPath) != 2 || pe.State.ExecPath[1] != "node_"+s {
-			return "persisted-session-crossed@" + b.Name, fmt.Sprintf("sessions %q each saved under record key %q with the session selected on the store handle; session %q loads %q at %v", sessions, key, s, got, pe.State.ExecPath), steps
+			return "persisted-session-crossed@" + b.Name, fmt.Sprintf("sessions %q each saved under record key %q (%s); session %q loads %q at %v", sessions, key, vname, s, got, pe.State.ExecPath), steps
 		}
 	}
 	return "", "", steps
